@@ -144,7 +144,7 @@ PROPS = {
                 "in use and a freed node address handed out again) or queue dropped with events pending",
         "fault_probes": ["dropped_with_pending", "dropped_with_zero_bucket_pending", "cancel_pending", "destructor_panic_during_cancel", "destructor_panic_injected", "queue_dropped_during_unwinding"],
         "expected_probes": ["dropped_with_pending", "dropped_with_zero_bucket_pending", "freed_node_reused", "multi_page_run",
-                            "event_at_duration_max", "node_of_page_size_minus_8", "destructor_panic_during_cancel"],
+                            "event_at_duration_max", "node_of_page_size_minus_8", "node_of_exactly_page_size", "destructor_panic_during_cancel"],
         "components": {"real": REAL_FES, "stub": STUB_FES},
         "assumptions": ["allocator observer hook reports every allocate/deallocate/page event truthfully",
                         "payloads whose node does not fit a page are outside the property and not generated",
